@@ -73,6 +73,68 @@ def enumeration_idiom(prog, cls, fn, helper_call):
     return False
 
 
+def vector_overwritten(iv, vname, n_values=()):
+    """init_var redefines every element of member vector vname: resize(n) followed by stores that cover [0, size):
+    a fill loop `for (i = s; i < V.size(); ++i) V[i] = ...` plus constant-index stores for 0..s-1, or constant-index
+    stores covering 0..n-1 for a constant n; or clear()/assign()/whole-vector assignment"""
+    from ..ast import is_local
+    if vname is None:
+        return False, 'registered address is not a member'
+    st = flat_stmts(iv.body)
+    resized_at = None
+    n_const = None
+    consts = set()
+    loop_from = None
+    cleared = False
+    for i, s_ in enumerate(st):
+        e = strip(s_, casts=True)
+        if e.get('k') == 'call' and e.get('obj') is not None and is_this_member(e['obj'], vname):
+            if e['n'] == 'resize':
+                if resized_at is None or len(set(n_values)) != 1:
+                    consts, loop_from = set(), None     # a later resize to the same constant length keeps the elements stored so far
+                resized_at = i
+                if len(e['args']) >= 2 and not cleared:
+                    # resize(n, v) only fills NEW elements
+                    pass
+            elif e['n'] in ('clear',):
+                cleared = True
+            elif e['n'] == 'assign':
+                return True, ''
+        if e.get('k') == 'call' and e.get('opcall') and e.get('n') == 'operator=' and is_this_member(e['args'][0], vname):
+            return True, ''
+        if e.get('k') == 'bin' and e['op'] == '=' and resized_at is not None:
+            l = strip(e['a'], casts=True)
+            if l.get('k') == 'call' and l.get('n') == 'operator[]' and is_this_member(l['args'][0], vname):
+                iv_ = int_value(l['args'][1])
+                if iv_ is not None:
+                    consts.add(iv_)
+        if e.get('k') == 'for' and resized_at is not None:
+            init = e.get('init')
+            if init and init.get('k') == 'decl' and len(init['vars']) == 1:
+                start = int_value(init['vars'][0].get('init'))
+                lid = init['vars'][0]['id']
+                c = strip(e['c'], casts=True)
+                b = strip(c.get('b'), casts=True) if c.get('k') == 'bin' else {}
+                full = c.get('k') == 'bin' and c['op'] in ('<', '!=') and is_local(c['a'], lid, casts=True) and b.get('k') == 'call' and b.get('n') == 'size' and \
+                    b.get('obj') is not None and strip(b['obj'], casts=True).get('k') == 'member'
+                body = flat_stmts(e['body'])
+                stores = [x for x in body if x.get('k') == 'bin' and x['op'] == '=' and strip(x['a'], casts=True).get('k') == 'call' and
+                          strip(x['a'], casts=True).get('n') == 'operator[]' and is_this_member(strip(x['a'], casts=True)['args'][0], vname) and
+                          is_local(strip(x['a'], casts=True)['args'][1], lid, casts=True)]
+                if full and start is not None and len(stores) == 1 and len(body) == 1:
+                    loop_from = start if loop_from is None else min(loop_from, start)
+    if cleared and resized_at is not None:
+        return True, ''
+    if resized_at is None:
+        return False, 'never resized'
+    if loop_from is not None and set(range(loop_from)) <= consts:
+        return True, ''
+    # constant-size case: every index below the (single, constant) length is stored
+    if len(set(n_values)) == 1 and n_values[0] is not None and set(range(n_values[0])) <= consts:
+        return True, ''
+    return False, 'after resize only elements %s%s are assigned' % (sorted(consts)[:4], (' and [%d, size)' % loop_from) if loop_from is not None else '')
+
+
 def run(ctx, prog):
     ctx.rule('C14.K1', 'get_list_mms<double> and <long double> register the same classes in the same order and contain nothing but registrations')
     ctx.rule('C14.K2', 'each constructor assigns mmsname one string literal: non-empty, pairwise distinct, its own normal form (no upper case, dash or blank); '
@@ -261,6 +323,18 @@ def run(ctx, prog):
                             filled = True
                     ctx.ob('C14.K4', '%s|vector-default|%s|%s' % (short, r['name'], sc), filled, r['node'].get('l'),
                            'vector "%s" of %s is registered but init_var leaves it empty' % (r['name'], short), sample='%s.%s resized' % (short, r['name']))
+                    nvals = []
+                    for (pth, meth, args, loc) in E.trace.obj_calls:
+                        if pth == vpath and meth == 'resize' and args:
+                            a0 = args[0]
+                            if a0[0] == 'call' and a0[1] == 'trunc':
+                                a0 = a0[2][0]
+                            sv = nf.as_single(nf.nf(a0))
+                            nvals.append(int(sv[0]) if sv is not None and sv[1] == () and sv[0].denominator == 1 else None)
+                    okc, whyc = vector_overwritten(iv, r['path'][-1] if r['path'] else None, tuple(nvals))
+                    ctx.ob('C14.K4', '%s|vector-overwritten|%s|%s' % (short, r['name'], sc), okc, r['node'].get('l'),
+                           'init_var of %s does not redefine every element of "%s" (%s): masa_init_param would keep values set through masa_set_vec' % (short, r['name'], whyc),
+                           sample='%s.%s: every element reassigned after resize' % (short, r['name']))
             # ---- K5
             order = []
             for c in calls(ctor.body):
